@@ -37,53 +37,80 @@ func VH_C14_dispatch(nh int) {
 			unreg[i]()
 		}
 	}
-	// expected orders: within a phase, prioritised handlers first, registration order within a class
-	expect := func(phaseInAdd bool) []int {
-		var out []int
-		for pass := 0; pass < 2; pass++ {
-			for i := 0; i < nh; i++ {
-				if i != dead && inAdd[i] == phaseInAdd && prio[i] == (pass == 0) {
-					out = append(out, i)
+	// optionally a new handler is registered afterwards (it may reuse the freed slot); its own
+	// options decide when it runs
+	rereg := nondetBool("register-another")
+	if rereg {
+		p2, a2 := nondetBool("priority"), nondetBool("run-in-addevent")
+		var opts []HandlerOption
+		if p2 {
+			opts = append(opts, Prioritize())
+		}
+		if a2 {
+			opts = append(opts, UnsafeRunInAddEvent())
+		}
+		Register(el, func(e vhEvA) { log = append(log, nh) }, opts...)
+		prio = append(prio, p2)
+		inAdd = append(inAdd, a2)
+		vcover("re-registered")
+	}
+	total := len(prio)
+	live := func(i int) bool { return !(i == dead && dead < nh) }
+	// within a phase: exactly the live handlers of that phase, prioritised ones first; among the
+	// originally registered handlers registration order within a class
+	check := func(got []int, phaseInAdd bool, label string) {
+		want := 0
+		for i := 0; i < total; i++ {
+			if live(i) && inAdd[i] == phaseInAdd {
+				want++
+			}
+		}
+		vassert(len(got) == want, label+"-runs-exactly-the-handlers-of-its-phase")
+		seenOrdinary := false
+		lastP, lastO := -1, -1
+		for _, h := range got {
+			vassert(h >= 0 && h < total && live(h) && inAdd[h] == phaseInAdd, label+"-only-live-handlers-of-this-phase")
+			if h < 0 || h >= total {
+				continue
+			}
+			if prio[h] {
+				vassert(!seenOrdinary, label+"-prioritised-handlers-run-before-ordinary-ones")
+				if h < nh {
+					vassert(h > lastP || lastP >= nh, label+"-registration-order-within-prioritised")
+					lastP = h
+				}
+			} else {
+				seenOrdinary = true
+				if h < nh {
+					vassert(h > lastO || lastO >= nh, label+"-registration-order-within-ordinary")
+					lastO = h
 				}
 			}
 		}
-		return out
 	}
 	el.AddEvent(vhEvA{1})
-	w1 := expect(true)
-	vassert(len(log) == len(w1), "addevent-runs-exactly-the-run-in-addevent-handlers")
-	for i := range w1 {
-		if i < len(log) {
-			vassert(log[i] == w1[i], "addevent-order-prioritised-first-then-registration-order")
-		}
-	}
 	n1 := len(log)
+	check(log[:n1], true, "addevent")
 	vassert(el.Tick(context.Background()), "queued-event-is-processed")
-	w2 := expect(false)
-	vassert(len(log)-n1 == len(w2), "tick-runs-exactly-the-ordinary-handlers")
-	for i := range w2 {
-		if n1+i < len(log) {
-			vassert(log[n1+i] == w2[i], "tick-order-prioritised-first-then-registration-order")
-		}
-	}
+	check(log[n1:], false, "tick")
 	vassert(!el.Tick(context.Background()), "event-handled-once")
-	for i := 0; i < nh; i++ {
+	for i := 0; i < total; i++ {
 		c := 0
 		for _, x := range log {
 			if x == i {
 				c++
 			}
 		}
-		if i == dead {
+		if !live(i) {
 			vassert(c == 0, "unregistered-handler-not-called")
 		} else {
 			vassert(c == 1, "each-live-handler-called-exactly-once")
 		}
 	}
-	vobserve("calls", uint64(len(log)))
-	if len(w1) > 0 && len(w2) > 0 {
+	if n1 > 0 && len(log) > n1 {
 		vcover("both-phases")
 	}
+	vobserve("calls", uint64(len(log)))
 }
 
 // C14(c): deferred events: d events of type A are deferred until a B event; they are delivered
